@@ -1,4 +1,223 @@
-import BipVerif.Model.Mnemonics
+/-
+C01 — BIP-39 mnemonic codec (`Bip39MnemonicEncoder.Encode`, `Bip39MnemonicDecoder.Decode`,
+`DecodeWithChecksum`, language auto-detection).  The encoder computes the BIP-39 definition (the
+11-bit groups of `entropy ‖ first len/4 bits of the hash`), decoder and encoder are mutually
+inverse bijections between the admissible entropies and the accepted sentences, the decoder accepts
+exactly the sentences of the definition and raises `ValueError` / `MnemonicChecksumError` only.
+Property theorems only; the proofs live in `BipVerif/Lemmas/Bip39.lean`.
+
+Standing hypotheses: `H` is any hash with 32-byte output (SHA-256 in the library); `wl` is any list
+of 2048 word codes without repetition; a sentence is the list of its word codes.
+-/
+import BipVerif.Lemmas.Bip39
+
 namespace BipVerif.Props.C01
-theorem placeholder : True := trivial
+open BipVerif BipVerif.Model
+
+/-! ### 1. the encoder is total on the five entropy sizes and refuses every other size -/
+
+/-- 16/20/24/28/32 bytes give a sentence of `(8·len + len/4) / 11` = 12/15/18/21/24 words of `wl` -/
+theorem encode_ok (H : Bytes → Bytes) (hH : ∀ x, (H x).length = 32) (wl : List Nat)
+    (hwl : wl.length = 2048) (ent : Bytes) (hlen : bip39EntLens.contains ent.length = true) :
+    ∃ ws, bip39Encode H wl ent = .ok ws
+      ∧ ws.length = (ent.length * 8 + ent.length / 4) / 11 ∧ ∀ w ∈ ws, w ∈ wl :=
+  bip39Encode_ok H hH wl hwl ent hlen
+
+/-- the word count is one of 12, 15, 18, 21, 24 -/
+theorem encode_word_count (H : Bytes → Bytes) (hH : ∀ x, (H x).length = 32) (wl : List Nat)
+    (hwl : wl.length = 2048) (ent : Bytes) (ws : List Nat) (h : bip39Encode H wl ent = .ok ws) :
+    bip39WordNums.contains ws.length = true ∧ ws.length * 4 = ent.length * 3 :=
+  bip39Encode_word_count H hH wl hwl ent ws h
+
+/-- every other entropy length is a `ValueError` (whatever the word list and hash) -/
+theorem encode_bad_length (H : Bytes → Bytes) (wl : List Nat) (ent : Bytes)
+    (hlen : bip39EntLens.contains ent.length = false) : bip39Encode H wl ent = .error .value :=
+  bip39Encode_error H wl ent hlen
+
+/-! ### 2. the encoder computes the BIP-39 definition -/
+
+/-- word `i` of the sentence is `wl[g i]`, `g i` the `i`-th 11-bit group (most significant first) of
+the integer `E · 2^cs + ⌊hash / 2^(256-cs)⌋`: the entropy followed by the first `cs = len/4` bits
+of its hash. -/
+theorem encode_spec (H : Bytes → Bytes) (hH : ∀ x, (H x).length = 32) (wl : List Nat)
+    (hwl : wl.length = 2048) (ent : Bytes) (ws : List Nat) (h : bip39Encode H wl ent = .ok ws)
+    (i : Nat) (hi : i < ws.length) :
+    ws[i]? = wl[(Bytes.toNatBE ent * 2 ^ (ent.length / 4)
+                  + Bytes.toNatBE (H ent) / 2 ^ (256 - ent.length / 4))
+                / 2 ^ (11 * (ws.length - 1 - i)) % 2048]? := by
+  obtain ⟨hl, hg⟩ := bip39Encode_getElem? H hH wl hwl ent ws h
+  rw [hg i hi, hl]; rfl
+
+/-- the same in closed form -/
+theorem encode_eq (H : Bytes → Bytes) (hH : ∀ x, (H x).length = 32) (wl : List Nat)
+    (hwl : wl.length = 2048) (ent : Bytes) (hlen : bip39EntLens.contains ent.length = true) :
+    bip39Encode H wl ent
+      = .ok ((List.range ((ent.length * 8 + ent.length / 4) / 11)).map fun i =>
+          wl.getD ((Bytes.toNatBE ent * 2 ^ (ent.length / 4)
+                      + Bytes.toNatBE (H ent) / 2 ^ (256 - ent.length / 4))
+                    / 2 ^ (11 * ((ent.length * 8 + ent.length / 4) / 11 - 1 - i)) % 2048) 0) :=
+  bip39Encode_eq H hH wl (by omega) ent hlen
+
+/-! ### 3. decode ∘ encode = id -/
+
+theorem decode_encode (H : Bytes → Bytes) (hH : ∀ x, (H x).length = 32) (wl : List Nat)
+    (hwl : wl.length = 2048) (hnd : wl.Nodup) (langs : List (List Nat)) (ent : Bytes)
+    (hlen : bip39EntLens.contains ent.length = true) :
+    (bip39Encode H wl ent >>= bip39Decode H langs (some wl)) = .ok ent :=
+  bip39_decode_encode H hH wl hwl hnd langs ent hlen
+
+/-! ### 4. error kinds of the decoder -/
+
+/-- the decoder fails with `ValueError` or `MnemonicChecksumError` only — in particular
+`int.to_bytes` never overflows and no `IndexError`/`KeyError` escapes — for an explicit language or
+auto-detection, provided no word list has more than 2048 entries. -/
+theorem decode_error_kinds (H : Bytes → Bytes) (hH : ∀ x, (H x).length = 32)
+    (langs : List (List Nat)) (hlangs : ∀ L ∈ langs, L.length ≤ 2048) (lang : Option (List Nat))
+    (hlang : ∀ L, lang = some L → L.length ≤ 2048) (ws : List Nat) (e : Err)
+    (h : bip39Decode H langs lang ws = .error e) : e = .value ∨ e = .checksum :=
+  bip39Decode_error_kind H hH langs hlangs lang hlang ws e h
+
+/-- a word count outside {12, 15, 18, 21, 24}: `ValueError` (any language argument) -/
+theorem decode_bad_count (H : Bytes → Bytes) (langs : List (List Nat)) (lang : Option (List Nat))
+    (ws : List Nat) (h : bip39WordNums.contains ws.length = false) :
+    bip39Decode H langs lang ws = .error .value :=
+  bip39Decode_count_error H langs lang ws h
+
+/-- a word that is not in the given list: `ValueError` -/
+theorem decode_unknown_word (H : Bytes → Bytes) (langs : List (List Nat)) (wl ws : List Nat)
+    (h : ∃ w ∈ ws, w ∉ wl) : bip39Decode H langs (some wl) ws = .error .value :=
+  bip39Decode_word_error H langs wl ws h
+
+/-- legal count, all words known, but the last `cs` bits are not the first `cs` bits of the hash of
+the entropy bytes `e'` (the `4·cs`-byte big-endian form of the leading bits):
+`MnemonicChecksumError` -/
+theorem decode_bad_checksum (H : Bytes → Bytes) (hH : ∀ x, (H x).length = 32)
+    (langs : List (List Nat)) (wl : List Nat) (hwl : wl.length = 2048) (ws : List Nat)
+    (hcount : bip39WordNums.contains ws.length = true) (hall : ∀ w ∈ ws, w ∈ wl) (e' : Bytes)
+    (he1 : e'.length = ws.length * 11 / 33 * 4)
+    (he2 : Bytes.toNatBE e' = ofDigitsBE 2048 (ws.map (wl.idxOf ·)) / 2 ^ (ws.length * 11 / 33))
+    (hck : ofDigitsBE 2048 (ws.map (wl.idxOf ·)) % 2 ^ (ws.length * 11 / 33)
+        ≠ Bytes.toNatBE (H e') / 2 ^ (256 - ws.length * 11 / 33)) :
+    bip39Decode H langs (some wl) ws = .error .checksum :=
+  bip39Decode_checksum_error H hH langs wl (by omega) ws hcount hall e' he1 he2 hck
+
+/-! ### 5. accept-iff -/
+
+/-- the decoder returns `e` exactly when the word count is legal, every word is in the list, and
+with `B` the integer whose base-2048 digits are the word indexes and `cs = 11·n/33`: `e` is the
+`4·cs`-byte big-endian form of `⌊B / 2^cs⌋` and the low `cs` bits of `B` are the first `cs` bits of
+`H e`. -/
+theorem decode_ok_iff (H : Bytes → Bytes) (hH : ∀ x, (H x).length = 32) (langs : List (List Nat))
+    (wl : List Nat) (hwl : wl.length = 2048) (ws : List Nat) (e : Bytes) :
+    bip39Decode H langs (some wl) ws = .ok e ↔
+      bip39WordNums.contains ws.length = true ∧ (∀ w ∈ ws, w ∈ wl)
+      ∧ e.length = ws.length * 11 / 33 * 4
+      ∧ Bytes.toNatBE e = ofDigitsBE 2048 (ws.map (wl.idxOf ·)) / 2 ^ (ws.length * 11 / 33)
+      ∧ ofDigitsBE 2048 (ws.map (wl.idxOf ·)) % 2 ^ (ws.length * 11 / 33)
+          = Bytes.toNatBE (H e) / 2 ^ (256 - ws.length * 11 / 33) := by
+  rw [bip39Decode_some_eq H hH langs wl (by omega)]
+  exact bip39DecodeSpec_ok_iff H wl (by omega) ws e
+
+/-! ### 6. encode ∘ decode = id: the accepted sentences are exactly the encoder's outputs -/
+
+theorem encode_decode (H : Bytes → Bytes) (hH : ∀ x, (H x).length = 32) (wl : List Nat)
+    (hwl : wl.length = 2048) (langs : List (List Nat)) (ws : List Nat) (e : Bytes)
+    (h : bip39Decode H langs (some wl) ws = .ok e) : bip39Encode H wl e = .ok ws :=
+  bip39_encode_decode H hH wl hwl langs ws e h
+
+/-- hence: a sentence is accepted iff it is the encoding of an (admissible) entropy -/
+theorem decode_ok_iff_encode (H : Bytes → Bytes) (hH : ∀ x, (H x).length = 32) (wl : List Nat)
+    (hwl : wl.length = 2048) (hnd : wl.Nodup) (langs : List (List Nat)) (ws : List Nat) (e : Bytes) :
+    bip39Decode H langs (some wl) ws = .ok e ↔ bip39Encode H wl e = .ok ws :=
+  bip39_decode_iff_encode H hH wl hwl hnd langs ws e
+
+/-! ### 7. language auto-detection -/
+
+/-- `_FindLanguageGeneric` returns the first language of the list that contains every word -/
+theorem findLanguage_first (pre post : List (List Nat)) (L ws : List Nat)
+    (hL : ∀ w ∈ ws, w ∈ L) (hpre : ∀ M ∈ pre, ∃ w ∈ ws, w ∉ M) :
+    findLanguage (pre ++ L :: post) ws = .ok L :=
+  Model.findLanguage_first pre post L ws hL hpre
+
+/-- so decoding without a language is decoding with that first language … -/
+theorem decode_autodetect_first (H : Bytes → Bytes) (pre post : List (List Nat)) (L ws : List Nat)
+    (hL : ∀ w ∈ ws, w ∈ L) (hpre : ∀ M ∈ pre, ∃ w ∈ ws, w ∉ M) :
+    bip39Decode H (pre ++ L :: post) none ws = bip39Decode H (pre ++ L :: post) (some L) ws :=
+  bip39Decode_none_first H pre post L ws hL hpre
+
+/-- … and a `ValueError` when no language contains every word -/
+theorem decode_autodetect_none (H : Bytes → Bytes) (langs : List (List Nat)) (ws : List Nat)
+    (h : ∀ M ∈ langs, ∃ w ∈ ws, w ∉ M) : bip39Decode H langs none ws = .error .value :=
+  bip39Decode_none_nolang H langs ws h
+
+/-- unconditional form: auto-detection is `find?` over the language list -/
+theorem decode_autodetect_eq (H : Bytes → Bytes) (langs : List (List Nat)) (ws : List Nat) :
+    bip39Decode H langs none ws
+      = match langs.find? (fun L => ws.all (fun w => L.contains w)) with
+        | some L => bip39Decode H langs (some L) ws
+        | none => .error .value :=
+  bip39Decode_none_find H langs ws
+
+/-- round trip with auto-detection: if no language *before* `wl` contains every word of the
+sentence, the entropy comes back. -/
+theorem decode_encode_autodetect (H : Bytes → Bytes) (hH : ∀ x, (H x).length = 32)
+    (wl : List Nat) (hwl : wl.length = 2048) (hnd : wl.Nodup) (pre post : List (List Nat))
+    (ent : Bytes) (hlen : bip39EntLens.contains ent.length = true)
+    (hpre : ∀ ws, bip39Encode H wl ent = .ok ws → ∀ M ∈ pre, ∃ w ∈ ws, w ∉ M) :
+    (bip39Encode H wl ent >>= bip39Decode H (pre ++ wl :: post) none) = .ok ent :=
+  bip39_decode_encode_autodetect H hH wl hwl hnd pre post ent hlen hpre
+
+/-- the same when an earlier language may contain every word, provided it has them at the same
+indexes as `wl` (Chinese simplified / traditional). -/
+theorem decode_encode_autodetect_idx (H : Bytes → Bytes) (hH : ∀ x, (H x).length = 32)
+    (wl : List Nat) (hwl : wl.length = 2048) (hnd : wl.Nodup) (pre post : List (List Nat))
+    (ent : Bytes) (hlen : bip39EntLens.contains ent.length = true)
+    (hpre : ∀ ws, bip39Encode H wl ent = .ok ws → ∀ M ∈ pre,
+      (∃ w ∈ ws, w ∉ M) ∨ (M.length ≤ 2048 ∧ ∀ w ∈ ws, M.idxOf w = wl.idxOf w)) :
+    (bip39Encode H wl ent >>= bip39Decode H (pre ++ wl :: post) none) = .ok ent :=
+  bip39_decode_encode_autodetect_idx H hH wl hwl hnd pre post ent hlen hpre
+
+/-- two word lists holding the words of a sentence at the same indexes decode it alike -/
+theorem decode_same_index (H : Bytes → Bytes) (hH : ∀ x, (H x).length = 32)
+    (langs : List (List Nat)) (L wl : List Nat) (hL : L.length ≤ 2048) (hwl : wl.length ≤ 2048)
+    (ws : List Nat) (hallL : ∀ w ∈ ws, w ∈ L) (hall : ∀ w ∈ ws, w ∈ wl)
+    (hidx : ∀ w ∈ ws, L.idxOf w = wl.idxOf w) :
+    bip39Decode H langs (some L) ws = bip39Decode H langs (some wl) ws :=
+  bip39Decode_same_index H hH langs L wl hL hwl ws hallL hall hidx
+
+/-! ### 8. `DecodeWithChecksum` -/
+
+/-- on success the result is the whole bit string `B` (entropy and checksum) as a big-endian
+integer on `⌈33·cs / 8⌉` bytes, and `Decode` succeeds on the same sentence. -/
+theorem decodeWithChecksum_spec (H : Bytes → Bytes) (hH : ∀ x, (H x).length = 32)
+    (langs : List (List Nat)) (wl : List Nat) (hwl : wl.length = 2048) (ws : List Nat) (r : Bytes)
+    (h : bip39DecodeWithChecksum H langs (some wl) ws = .ok r) :
+    (∃ e, bip39Decode H langs (some wl) ws = .ok e)
+      ∧ r.length = (33 * (ws.length * 11 / 33) + 7) / 8
+      ∧ Bytes.toNatBE r = ofDigitsBE 2048 (ws.map (wl.idxOf ·)) :=
+  bip39DecodeWithChecksum_ok H hH langs wl (by omega) ws r h
+
+/-- it fails exactly when (and how) `Decode` fails -/
+theorem decodeWithChecksum_eq (H : Bytes → Bytes) (hH : ∀ x, (H x).length = 32)
+    (langs : List (List Nat)) (wl : List Nat) (hwl : wl.length = 2048) (ws : List Nat) :
+    bip39DecodeWithChecksum H langs (some wl) ws
+      = match bip39Decode H langs (some wl) ws with
+        | .ok _ => .ok (Bytes.ofNatBE ((11 * ws.length + 7) / 8)
+            (ofDigitsBE 2048 (ws.map (wl.idxOf ·))))
+        | .error e => .error e :=
+  bip39DecodeWithChecksum_some_eq H hH langs wl (by omega) ws
+
+theorem decodeWithChecksum_autodetect_first (H : Bytes → Bytes) (pre post : List (List Nat))
+    (L ws : List Nat) (hL : ∀ w ∈ ws, w ∈ L) (hpre : ∀ M ∈ pre, ∃ w ∈ ws, w ∉ M) :
+    bip39DecodeWithChecksum H (pre ++ L :: post) none ws
+      = bip39DecodeWithChecksum H (pre ++ L :: post) (some L) ws :=
+  bip39DecodeWithChecksum_none_first H pre post L ws hL hpre
+
+/-! ### non-vacuity: the standing hypotheses are satisfiable -/
+
+example (ent : Bytes) (hlen : bip39EntLens.contains ent.length = true) :
+    (bip39Encode (fun _ => List.replicate 32 0) (List.range 2048) ent
+      >>= bip39Decode (fun _ => List.replicate 32 0) [] (some (List.range 2048))) = .ok ent :=
+  decode_encode _ (fun _ => List.length_replicate ..) _ List.length_range List.nodup_range [] ent hlen
+
 end BipVerif.Props.C01
